@@ -42,9 +42,9 @@ Print Assumptions C03_checker_truth_complete.
    outer `and` is where it fails) - not attempted.
    ------------------------------------------------------------------------------------------------------------------ *)
 
-(* C03_andor_partial: every `or` of `and`s of literals (a | not a) - any number of alternatives, any widths, hence also a
-   single `and` of n literals and a single `or` of n literals - written as the filter of a generator decompiles to
-   exactly itself. *)
+(* C03_andor_partial: every `or` of `and`s of literals - any number of alternatives, any widths, hence also a single `and`
+   of n literals and a single `or` of n literals - written as the filter of a generator decompiles to exactly itself.
+   A literal is  a | not a | a == b | a != b | not a == b | not a != b | a is None | a is not None  (names a, b). *)
 Theorem C03_andor_partial : forall alts, wf_alts alts -> decompile PFilter (dnf alts) = Some (dnf alts).
 Proof. exact roundtrip_dnf. Qed.
 Print Assumptions C03_andor_partial.
@@ -63,6 +63,13 @@ Theorem C03_andor_partial_cnf_meaning : forall cls, wf_alts cls ->
   exists e', decompile PFilter (cnf cls) = Some e' /\ forall rho, eval rho e' = eval rho (cnf cls).
 Proof. exact roundtrip_cnf_meaning. Qed.
 Print Assumptions C03_andor_partial_cnf_meaning.
+
+Example C03_andor_partial_literals_nonvacuous :
+  dnf [[LCmp false false 0 1; LIsN true 2]; [Lit true 3; LCmp true true 4 5]] =
+    Or [And [Cmp false (Atom 0) (Atom 1); IsNone true (Atom 2)]; And [Not (Atom 3); Not (Cmp true (Atom 4) (Atom 5))]] /\
+  decompile PFilter (dnf [[LCmp false false 0 1; LIsN true 2]; [Lit true 3; LCmp true true 4 5]]) =
+    Some (dnf [[LCmp false false 0 1; LIsN true 2]; [Lit true 3; LCmp true true 4 5]]).
+Proof. split; reflexivity. Qed.
 
 Example C03_andor_partial_cnf_nonvacuous :
   cnf [[Lit false 0; Lit true 1]; [Lit false 2]; [Lit true 3; Lit false 4; Lit false 5]] =
